@@ -2,7 +2,8 @@
 //
 // The parent process only orchestrates: lindb's calculators use time.Local, which is fixed at
 // process start, so every part of the workload runs in child processes started with TZ set.
-// UTC and Asia/Shanghai decide; America/New_York (a DST zone) is run and reported only.
+// UTC, Asia/Shanghai and Asia/Kolkata (+05:30, an offset that is not a whole number of hours) decide;
+// America/New_York (a DST zone) is run and reported only.
 package main
 
 import (
@@ -30,6 +31,7 @@ var zones = []struct {
 }{
 	{"UTC", true},
 	{"Asia/Shanghai", true},
+	{"Asia/Kolkata", true},
 	{"America/New_York", false},
 }
 
@@ -140,7 +142,7 @@ func main() {
 		"(zone, part, interval type, segment, boundary kind) for calculator/tsdb/broker/rollup cases and " +
 		"(zone, option set, storage interval, range-length bucket, edge kind) for planner cases")
 	c.Assume("Go's time package (time.Date / time.LoadLocation with an explicit *Location) is a correct calendar; the oracle never calls lindb's IntervalCalculator")
-	c.Assume("UTC and Asia/Shanghai decide; America/New_York (DST) is run and only reported (the property scopes calendar features to month lengths, leap days, year ends)")
+	c.Assume("UTC, Asia/Shanghai and Asia/Kolkata (+05:30) decide; America/New_York (DST) is run and only reported (the property scopes calendar features to month lengths, leap days, year ends)")
 	c.Assume("planner alignment / containment is decided only for storage intervals that divide their family unit (hour, day, day); other intervals are reported")
 	c.Assume("database retention is 200 years so that the wall clock cannot expire a generated segment (window ends 2032)")
 
@@ -274,6 +276,8 @@ func zoneTag(tz string) string {
 		return "utc"
 	case "Asia/Shanghai":
 		return "shanghai"
+	case "Asia/Kolkata":
+		return "kolkata"
 	case "America/New_York":
 		return "newyork"
 	}
